@@ -331,6 +331,31 @@ func TestC21(t *testing.T) {
 					fail("NewHashKey(prefix of %d parts) of %s is %x, expected %x", cut, c21TupleString(tu), nk, crypto.SHA3Sum256(ck))
 				}
 			}
+			// retained siblings: builders derived from one parent are independent values. A parent p (itself
+			// derived by Append), child c1 = p.Append(t1...), then child c2 = p.Append(t2...): c1 must still
+			// build the key of prefix+t1 after c2 exists (contracts keep several sub-container handles).
+			for _, b := range builders {
+				pre := []c21part{{"pfx", []byte("pfx"), "str:pfx"}}
+				if extra := rapid.IntRange(0, 2).Draw(rt, "sibPrefix"); extra > 0 && len(t2) > 0 {
+					pre = append(pre, t2[:min(extra, len(t2))]...)
+				}
+				root := containerdb.ToKey(b.kind, c21Values(pre[:1])...)
+				p := root.Append(c21Values(pre[1:])...)
+				if rapid.Bool().Draw(rt, "sibDeeper") {
+					p = p.Append("mid")
+					pre = append(pre, c21part{"mid", []byte("mid"), "str:mid"})
+				}
+				c1 := p.Append(c21Values(t1)...)
+				want1 := containerdb.ToKey(b.kind, c21Values(append(append([]c21part{}, pre...), t1...))...).Build()
+				c2 := p.Append(c21Values(t2)...)
+				want2 := containerdb.ToKey(b.kind, c21Values(append(append([]c21part{}, pre...), t2...))...).Build()
+				if got := c1.Build(); !bytes.Equal(got, want1) {
+					fail("%s builder: child builder of path %s+%s builds %x after a sibling was derived from the same parent, expected %x", b.name, c21TupleString(pre), c21TupleString(t1), got, want1)
+				}
+				if got := c2.Build(); !bytes.Equal(got, want2) {
+					fail("%s builder: second child of path %s+%s builds %x, expected %x", b.name, c21TupleString(pre), c21TupleString(t2), got, want2)
+				}
+			}
 			for _, b := range builders {
 				if b.kind == containerdb.PrefixedHashBuilder && (len(t1) == 0 || len(t2) == 0) {
 					continue
@@ -554,6 +579,7 @@ func TestC21(t *testing.T) {
 					}
 				}
 			}
+			siblingOps := 0
 			nops := rapid.IntRange(10, maxOps).Draw(rt, "nops")
 			for i := 0; i < nops; i++ {
 				val := []byte(fmt.Sprintf("v%d", i))
@@ -622,10 +648,38 @@ func TestC21(t *testing.T) {
 								fail("GetDB(%s) of a depth-%d dictionary returns nil", c21TupleString(ks[:n]), d.depth)
 							}
 						}
-						if err := target.Set(append(c21Values(rest), valArg)...); err != nil {
-							fail("%s error %v", op, err)
+						if d.depth == 3 && rapid.IntRange(0, 2).Draw(rt, "siblingHandles") == 0 {
+							// two handles derived from one sub-dictionary, both alive: write through the FIRST one
+							// after the second one was created, then through the second
+							ks2 := append(append([]c21part{}, ks[:1]...), drawKeys(2)...)
+							sub := ddb.GetDB(c21Values(ks[:1])...)
+							if sub == nil {
+								fail("GetDB(%s) of a depth-3 dictionary returns nil", c21TupleString(ks[:1]))
+							}
+							h1 := sub.GetDB(c21Values(ks[1:2])...)
+							h2 := sub.GetDB(c21Values(ks2[1:2])...)
+							if h1 == nil || h2 == nil {
+								fail("GetDB of a depth-2 sub-dictionary returns nil")
+							}
+							op = fmt.Sprintf("dsetSiblings(%s,%s,%s)", d.base[len(d.base)-1].s, c21TupleString(ks), c21TupleString(ks2))
+							if err := h1.Set(c21Values(ks[2:])[0], valArg); err != nil {
+								fail("%s error %v", op, err)
+							}
+							d.ref[id] = val
+							val2 := []byte(fmt.Sprintf("w%d", i))
+							if err := h2.Set(c21Values(ks2[2:])[0], val2); err != nil {
+								fail("%s error %v", op, err)
+							}
+							id2 := c21ID(ks2)
+							d.keys[id2] = ks2
+							d.ref[id2] = val2
+							siblingOps++
+						} else {
+							if err := target.Set(append(c21Values(rest), valArg)...); err != nil {
+								fail("%s error %v", op, err)
+							}
+							d.ref[id] = val
 						}
-						d.ref[id] = val
 					} else {
 						op = fmt.Sprintf("ddel(%s,%s)", d.base[len(d.base)-1].s, c21TupleString(ks))
 						if err := ddb.Delete(c21Values(ks)...); err != nil {
@@ -695,6 +749,9 @@ func TestC21(t *testing.T) {
 			}
 			if len(dicts) > 0 {
 				labels = append(labels, "hasDict")
+			}
+			if siblingOps > 0 {
+				labels = append(labels, "siblingHandlesOfOneSubDict")
 			}
 			rec.Case(desc, ambiguous, labels...)
 		})
